@@ -8,6 +8,10 @@
 (*                      {id, desc, inputs, order}); the same laws and the same export.                            *)
 (*   Mode = "same":     one dummy case; SameUniverse states that the universe below IS the C01 universe           *)
 (*                      restricted to inputs of rank <= 2 (evaluated once, printed by EmitSame).                  *)
+(*   Mode = "sources":  the multi-source family below: one axis of the last output is fed by 2-3 sources (root    *)
+(*                      inputs, mapped arrays of depth 1 and 2, a rank-2 mapped array whole or reduced), listed   *)
+(*                      in the MapSpec in EVERY order (XarrayLabels!LawSourceOrder is checked on them and every    *)
+(*                      order is exported, so the code is run on every order).                                     *)
 EXTENDS XarrayLabels, MC_MapDenote, IOUtils
 CONSTANTS MinSize, Mode
 
@@ -31,10 +35,54 @@ MappedRankLE2(u) == \A i \in FIdx(u.desc) : \A k \in DOMAIN u.desc.funcs[i].ms.i
                         u.desc.funcs[i].ms.ins[k].name \in RootNames(u.desc) => Len(u.desc.funcs[i].ms.ins[k].axes) <= 2
 SameUniverse == XUniverseAll = {u \in Universe : MappedRankLE2(u)}
 
+---------------------------------------------------------------------------
+(* Multi-source axes.  The last function h maps over a sequence of SOURCES that all carry axis i:                 *)
+(*     c[i], e[i]              root inputs                                                                        *)
+(*     x[i], v[i]              mapped arrays one step from a root:   a[i] -> x[i]      b[i] -> v[i]               *)
+(*     u[i]                    two steps, itself zipping a root BEFORE a mapped array:                            *)
+(*                                                                   d[i] -> t[i]      g[i], t[i] -> u[i]         *)
+(*     y[i, j]  or  y[i, :]    a rank-2 mapped array, whole or with j reduced:    p[i], q[j] -> y[i, j]           *)
+(* A case is an injective sequence of 2..3 of these (at most one spec of y): EVERY order of every choice, so a    *)
+(* root input is listed before and after a mapped array, between two of them, two mapped arrays are zipped, ...   *)
+(* h's PARAMETERS are in one fixed order whatever the order in the MapSpec, so all orders of one choice denote    *)
+(* the same arrays and must be labelled alike (LawOrderFree below).                                                *)
+SrcI(n)   == [name |-> n, axes |-> One("i")]
+YWhole    == [name |-> "y", axes |-> <<"i", "j">>]
+YReduced  == [name |-> "y", axes |-> <<"i", ":">>]
+SrcPool   == {SrcI("c"), SrcI("e"), SrcI("x"), SrcI("v"), SrcI("u"), YWhole, YReduced}
+SrcPool3  == IF Rich THEN SrcPool ELSE {SrcI("c"), SrcI("x"), SrcI("v"), SrcI("u"), YWhole}      \* triples: 5 of the 7 unless Rich
+SrcSeqs   == {s \in [1..2 -> SrcPool] \cup [1..3 -> SrcPool3] : \A k1, k2 \in DOMAIN s : k1 # k2 => s[k1].name # s[k2].name}
+(* the functions that produce a source, and the root inputs (with their axis) that it brings along *)
+SrcProducers(n) ==
+    CASE n = "x" -> One(MkFn("fx", One("a"), One("x"), TRUE, One(SrcI("a")), One("i"), NoSeq))
+      [] n = "v" -> One(MkFn("fv", One("b"), One("v"), TRUE, One(SrcI("b")), One("i"), NoSeq))
+      [] n = "u" -> <<MkFn("ft", One("d"), One("t"), TRUE, One(SrcI("d")), One("i"), NoSeq),
+                      MkFn("fu", <<"g", "t">>, One("u"), TRUE, <<SrcI("g"), SrcI("t")>>, One("i"), NoSeq)>>
+      [] n = "y" -> One(MkFn("fy", <<"p", "q">>, One("y"), TRUE, <<SrcI("p"), [name |-> "q", axes |-> One("j")]>>, <<"i", "j">>, NoSeq))
+      [] OTHER   -> NoSeq
+SrcRoots(n) ==
+    CASE n = "x" -> One(<<"a", "i">>) [] n = "v" -> One(<<"b", "i">>) [] n = "u" -> <<<<"d", "i">>, <<"g", "i">>>>
+      [] n = "y" -> <<<<"p", "i">>, <<"q", "j">>>> [] OTHER -> One(<<n, "i">>)
+RECURSIVE CatMap(_, _)                                         \* concatenation of F[s[1]], F[s[2]], ... (F a function value)
+CatMap(F, s) == IF Len(s) = 0 THEN NoSeq ELSE F[Head(s)] \o CatMap(F, Tail(s))
+SrcNames  == {"c", "e", "u", "v", "x", "y"}
+ParamsFor(s) == SelectSeq(<<"c", "e", "u", "v", "x", "y">>, LAMBDA n : \E k \in DOMAIN s : s[k].name = n)
+SrcDesc(s) ==
+    LET wax == IF \E k \in DOMAIN s : s[k] = YWhole THEN <<"i", "j">> ELSE One("i")
+    IN  [funcs |-> CatMap([n \in SrcNames |-> SrcProducers(n)], ParamsFor(s))
+                   \o One(MkFn("h", ParamsFor(s), One("w"), TRUE, s, wax, NoSeq))]
+SrcAxes(s)   == {"i"} \cup (IF \E k \in DOMAIN s : s[k].name = "y" THEN {"j"} ELSE {})
+SrcInputs(s, sz) ==
+    LET roots == CatMap([n \in SrcNames |-> SrcRoots(n)], ParamsFor(s))
+    IN  [k \in DOMAIN roots |-> <<roots[k][1], InputArr(roots[k][1], One(sz[roots[k][2]]))>>]
+SrcUniverse == UNION {{[desc |-> SrcDesc(s), inputs |-> SrcInputs(s, sz)] : sz \in [SrcAxes(s) -> MinSize..MaxSize]} : s \in SrcSeqs}
+SOrder == <<"a", "b", "c", "d", "e", "g", "p", "q", "t", "u", "v", "w", "x", "y">>   \* all names of the family, alphabetically
+
 FileCases == ndJsonDeserialize(IOEnv.CASE_FILE)
 Cases == CASE Mode = "universe" -> {[id |-> 0, desc |-> u.desc, inputs |-> u.inputs, order |-> UOrder] : u \in XUniverse}
            [] Mode = "file"     -> {FileCases[n] : n \in DOMAIN FileCases}
            [] Mode = "same"     -> {[id |-> 0, same |-> SameUniverse]}
+           [] Mode = "sources"  -> {[id |-> 0, desc |-> u.desc, inputs |-> u.inputs, order |-> SOrder] : u \in SrcUniverse}
 
 (* `lab` holds what is computed once per case (an operator over `case` is re-evaluated at every use):             *)
 (* whether the case is in scope, its denotation and the static analysis of its description                        *)
@@ -58,6 +106,10 @@ Switches   == BOOLEAN
 LawSupported   == Sup                                                  \* universe mode: every case is in scope
 LawOrder       == Sup => AllOutputs(D) \cup AllParams(D) \subseteq SeqToSet(Ord)
 LawDenotation  == Sup => (LawValid /\ LawShape /\ Dn = Den /\ An = Analysis(D))   \* what is exported is THE denotation
+(* every axis collects the union of what its sources contribute; the order of the sources in a MapSpec is free:   *)
+(* the same analysis (so the same exported views) and the same denotation for every reordering                     *)
+LawUnion       == Sup => LawSources(D)
+LawOrderFree   == Sup => LawSourceOrder(D, case.inputs, An, Dn)
 LawDimsOK      == Sup => LawDims(D, An, Dn, An.outs)
 LawCoordsFit   == Sup => \A S \in Selections : \A li \in Switches : LawCoordFits(An, Dn, S, li)
 LawAccepted    == Sup => \A S \in Selections : \A li \in Switches : LawCanonicalAccepted(An, S, li)
